@@ -1311,6 +1311,12 @@ func (e *Engine) mapCard(st *State, mt *types.Map, m *Term) *Term {
 	if st.mark(c) {
 		st.assume(Ge(c, IntLit(0)))
 		st.assume(Implies(Eq(m, IntLit(0)), Eq(c, IntLit(0))))
+		// a map of length 0 holds no key
+		if ks, ok := mapKeySort(mt); ok {
+			q := BoundVar("qe", ks)
+			sel := Select(e.mapDom(st, mt, m), q)
+			st.assume(Implies(Eq(c, IntLit(0)), Forall([]*Term{q}, Not(sel), sel)))
+		}
 	}
 	return c
 }
@@ -1406,6 +1412,20 @@ func (e *Engine) lookup(fr *Frame, st *State, x *ssa.Lookup) Val {
 	return scalar(r)
 }
 
+// loopCounts: the loop whose header holds this Next has an invariant that mentions nvisited().
+func (e *Engine) loopCounts(fr *Frame, x *ssa.Next) bool {
+	l := fr.loops[x.Block()]
+	if l == nil || l.Spec == nil {
+		return false
+	}
+	for _, inv := range l.Spec.Invs {
+		if strings.Contains(inv.Src, "nvisited(") {
+			return true
+		}
+	}
+	return false
+}
+
 func (e *Engine) rangeInit(fr *Frame, st *State, x *ssa.Range) {
 	it := &mapIter{}
 	if mt, ok := x.X.Type().Underlying().(*types.Map); ok {
@@ -1458,10 +1478,13 @@ func (e *Engine) rangeNext(fr *Frame, st *State, x *ssa.Next) Val {
 	nv := st.cells[it.ncell].T
 	st.assume(Ge(nv, IntLit(0)))
 	st.assume(Le(nv, IntLit(1<<62))) // a Go map never holds that many keys (len is an int)
-	q2 := BoundVar("qc", ks)
-	st.assume(Implies(And(Not(ok), Ne(it.m, IntLit(0)), Forall([]*Term{q2}, Implies(Select(visited, q2), Select(dom, q2)), Select(visited, q2))),
-		Eq(nv, e.mapCard(st, mt, it.m))))
-	st.assume(Implies(And(Not(ok), Eq(it.m, IntLit(0))), Eq(nv, IntLit(0))))
+	if e.loopCounts(fr, x) {
+		// only for loops whose invariants count the visited keys (nvisited()): the quantified fact costs solver time
+		q2 := BoundVar("qc", ks)
+		st.assume(Implies(And(Not(ok), Ne(it.m, IntLit(0)), Forall([]*Term{q2}, Implies(Select(visited, q2), Select(dom, q2)), Select(visited, q2))),
+			Eq(nv, e.mapCard(st, mt, it.m))))
+		st.assume(Implies(And(Not(ok), Eq(it.m, IntLit(0))), Eq(nv, IntLit(0))))
+	}
 	st.cells[it.ncell] = scalar(Ite(ok, Add(nv, IntLit(1)), nv))
 	kv := mapKeyVal(mt, k)
 	if kindOf(mt.Key()) == kStruct {
